@@ -77,6 +77,47 @@ def run_case(cuts: list[int] | None, n_data: int, name: str | None, expected: st
         return out
 
 
+def key_spellings(ctx: Ctx) -> None:
+    """'Holding the same key': the key is 32 bytes; the client is given their base64 text.  Spellings of that text which the standard decoder reads
+    as the same 32 bytes - a trailing newline or CRLF (a secrets file), blanks around it (a pasted value), a line break inside (a wrapped YAML
+    scalar), a str subclass - configure the same key: the handshake completes and messages flow."""
+    from aioesphomeapi import api_pb2 as pb
+
+    res = ctx.res
+    b64 = base64.b64encode(PSK).decode()
+
+    class S(str):
+        pass
+
+    forms = {"plain": b64, "trailing-newline": b64 + "\n", "trailing-crlf": b64 + "\r\n", "blanks-around": "  " + b64 + " ", "wrapped": b64[:20] + "\n" + b64[20:],
+             "str-subclass": S(b64), "tab-and-newline": "\t" + b64 + "\n"}
+    for j, (label, text) in enumerate(forms.items()):
+        if not ctx.mine(800 + j):
+            continue
+        with Sim() as sim:
+            dev = sim.device(DeviceConfig(name="dev", noise_psk=PSK))
+            cli = sim.client(noise_psk=text, keepalive=1e5)
+            c0 = sim.call("connect", lambda: cli.connect(on_stop=sim.on_stop_cb(), login=False))
+            sim.run(until=lambda: c0.done, max_time=sim.clock + 100)
+            got: list[Any] = []
+            if c0.outcome == "ok":
+                cli.subscribe_states(got.append)
+                sim.run_for(0.01)
+                dev.conn.send_msg(pb.SensorStateResponse(key=4, state=2.5))
+                sim.run_for(0.01)
+            res.evaluations += 1
+            res.count("S/key-spellings")
+            res.sig("S-key-spelling", label)
+            case = {"part": "S", "key_spelling": label}
+            if c0.outcome != "ok":
+                res.violation("C03/S/connect-failed", f"key text spelled {label!r} (decodes to the device's 32 bytes): connect() failed with {c0.exc!r}", case, trace=sim.trace(30))
+            elif [type(x).__name__ for x in got] != ["SensorState"]:
+                res.violation("C03/S/delivery", f"key text spelled {label!r}: delivered {got!r:.80}", case)
+            if c0.outcome == "ok":
+                d = sim.call("bye", lambda: cli.disconnect(force=True))
+                sim.run(until=lambda: d.done, max_time=sim.clock + 5)
+
+
 def name_in_force(ctx: Ctx) -> None:
     """'Configured' is whatever the application last set on the client (constructor argument or the public expected_name setter) by the time the
     server hello is evaluated: set before the connect, between start_connection() and finish_connection(), or while connect() is still
@@ -141,6 +182,7 @@ def shard(ctx: Ctx) -> None:
     from aioesphomeapi.core import BadNameAPIError, ConnectionNotEstablishedAPIError
 
     name_in_force(ctx)
+    key_spellings(ctx)
 
     res = ctx.res
     # length of the device's first chunk: hello frame + handshake frame (+ data frames)
